@@ -94,15 +94,17 @@ func noteCase(c *Case) {
 	progress.Add(1)
 }
 
-const hangSeconds = 45
+const hangSeconds = 60
 
-// startWatchdog runs onHang(case) if no case starts or finishes for
-// hangSeconds of wall-clock time. Wall-clock is used only here, as a backstop
-// three orders of magnitude above the slowest case.
+// startWatchdog runs onHang(case) if for hangSeconds of wall-clock time no
+// case starts or finishes, the simulator takes no scheduling decision and no
+// simulated medium is read or written. Wall-clock is used only here, as a
+// backstop: a large case on a loaded machine keeps the heartbeat going.
 func startWatchdog(onHang func(c *Case)) (stop func()) {
 	done := make(chan struct{})
 	go func() {
-		last, idle := progress.Load(), 0
+		beat := func() int64 { return progress.Load() + simrt.Heartbeat.Load() }
+		last, idle := beat(), 0
 		t := time.NewTicker(time.Second)
 		defer t.Stop()
 		for {
@@ -111,7 +113,7 @@ func startWatchdog(onHang func(c *Case)) (stop func()) {
 				return
 			case <-t.C:
 			}
-			if cur := progress.Load(); cur != last {
+			if cur := beat(); cur != last {
 				last, idle = cur, 0
 				continue
 			}
@@ -405,8 +407,15 @@ func WriteReplay(path string, c *Case, r *Result) error {
 // with enabled sets and log) and the number of executions spent.
 func Minimise(t *testing.T, p *Property, c *Case, sig string, budget int) (*Case, *Result, int) {
 	n := 0
+	// also bounded in wall-clock time: a finding on a multi-megabyte case must
+	// not hold its worker for the rest of the check
+	deadline := time.Now().Add(30 * time.Second)
 	try := func(x *Case) *Result {
 		if n >= budget {
+			return nil
+		}
+		if time.Now().After(deadline) {
+			n = budget
 			return nil
 		}
 		n++
